@@ -7,3 +7,4 @@ pub mod timelock;
 pub mod rwa;
 pub mod nft;
 pub mod policies;
+pub mod sa;
